@@ -6,7 +6,7 @@
 
 use crate::families::aio::{self, CancelAfter, sleep_ms};
 use crate::families::client_blocking::draw_net;
-use crate::families::svs::{Payload, Record, dest_state, draw_opts, draw_payload, fail_point, private_dir, router_for_stall, start_server, unzstd};
+use crate::families::svs::{Payload, Record, dest_state, draw_opts, draw_payload, fail_point, private_dir, router_for_stall, router_for_stall_p, start_server, unzstd};
 use crate::framework::{Case, Family, bytes, pick, range};
 use repe::value_stream::{AsyncSvsClient, Compression, StreamOpts};
 use repe::websocket_server::WebSocketServer;
@@ -57,8 +57,8 @@ enum Transport {
     Ws(WebSocketClient, tokio::task::JoinHandle<()>),
 }
 
-async fn connect(payload: &Payload, opts: StreamOpts, ws: bool, may_stall: bool) -> Result<Transport, String> {
-    let router = router_for_stall(payload, opts, may_stall);
+async fn connect(payload: &Payload, opts: StreamOpts, ws: bool, stall_one_in: u32) -> Result<Transport, String> {
+    let router = router_for_stall_p(payload, opts, stall_one_in);
     if ws {
         let listener = WebSocketServer::listen("127.0.0.1:0").await.map_err(|e| e.to_string())?;
         let addr = listener.local_addr().unwrap();
@@ -154,7 +154,7 @@ fn c09_async_pull(case: &Case) {
         "chunk_bytes": chunk, "depth": opts.session_depth, "compression": format!("{:?}", opts.compression), "producer_fails": payload.fails(), "api": api, "connection_reset_after_us": conn_loss_us}));
     let case = case.clone();
     aio::run(&case.clone(), 3_600, async move {
-        let t = connect(&payload, opts, ws, true).await;
+        let t = connect(&payload, opts, ws, 6).await;
         let lossy = conn_loss_us.is_some();
         if let Some(us) = conn_loss_us {
             let conn = net::connections().last().cloned();
@@ -464,7 +464,7 @@ fn c10_async_file(case: &Case) {
     let temp_left2 = temp_left.clone();
     aio::run(&case.clone(), 3_600, async move {
         let case = case2;
-        let t = match connect(&payload, opts, ws, false).await {
+        let t = match connect(&payload, opts, ws, 40).await {
             Ok(t) => t,
             Err(e) => {
                 case.harness_error(format!("setup failed: {e}"));
